@@ -95,7 +95,9 @@ def builtin(I, name, args, kwargs, st, node):
         if "dict" in a0.kinds:
             return a0.copy(regions=["F"], oid=None)
         e = I.iterate(a0, node, st, quiet=True)
-        return AV(kinds=["dict"], regions=["F"], elem=(e.fields or {}).get(1, e.elem), keys=(e.fields or {}).get(0))
+        # a dict built from a hash-ordered set keeps that order: iterating IT is order sensitive
+        return AV(kinds=["dict"], regions=["F"], elem=(e.fields or {}).get(1, e.elem), keys=(e.fields or {}).get(0),
+                  setlike=bool(a0.setlike))
     if name in ("map", "filter") and len(args) >= 2:
         e = I.iterate(args[1], node, st)
         if name == "map":
@@ -389,13 +391,13 @@ def method(I, base, name, args, kwargs, st, node):
                 # field-sensitive: keep (key, value) pairs together
                 pairs = [AV(kinds=["tuple"], elem=join(const_av(k), v), fields={0: const_av(k), 1: v})
                          for k, v in base.fields.items()]
-                return AV(kinds=["list"], regions=["F"], elem=join_all(pairs))
+                return AV(kinds=["list"], regions=["F"], elem=join_all(pairs), tag="dictview", setlike=bool(base.setlike))
             return AV(kinds=["list"], regions=["F"], elem=AV(kinds=["tuple"], elem=join(keys, vals),
-                                                              fields={0: keys, 1: vals}))
+                                                              fields={0: keys, 1: vals}), tag="dictview", setlike=bool(base.setlike))
         if name == "keys":
-            return AV(kinds=["list"], regions=["F"], elem=keys)
+            return AV(kinds=["list"], regions=["F"], elem=keys, tag="dictview", setlike=bool(base.setlike))
         if name == "values":
-            return AV(kinds=["list"], regions=["F"], elem=vals)
+            return AV(kinds=["list"], regions=["F"], elem=vals, setlike=bool(base.setlike))
         if name == "get":
             d = args[1] if len(args) > 1 else NONE
             if a0 is not None and a0.const is not None and base.fields is not None and a0.const in base.fields \
